@@ -133,11 +133,7 @@ class BitArray(Bits):
             if len(x) != dtype.bitlength:
                 raise CreationError(f"Can't initialise with value of length {len(x)} bits, "
                                     f"as attribute has length of {dtype.bitlength} bits.")
-            length_before = len(self)
             self._bitstore = x._bitstore
-            if hasattr(self, '_pos') and len(self) != length_before:
-                # For stream types a change in length resets the bit position, as for other mutating methods.
-                self._pos = 0
             return
 
     def __iadd__(self, bs: BitsType) -> BitArray:
